@@ -1,6 +1,24 @@
 """C31 — flush emits statements in an order that satisfies every constraint (ormsim)."""
 from props import _orm
 
+def _shape(rng, pool, cfg):
+    """tree nodes with labels (many-to-many without reverse side): a label is removed from a node and deleted in the same flush in
+    which the node also takes part in a parent/child change (per-state ordering inside a cycle)"""
+    if rng.random() > 0.25:
+        return None
+    r = lambda: rng.randrange(64)
+    odd3 = lambda: 1 + 3 * rng.randrange(20)           # mk adds the object when a2 % 3 != 0
+    prog = [["mk", rng.choice((4, 5)), odd3()] for _ in range(rng.randint(1, 3))] + [["mk", 3, odd3()] for _ in range(rng.randint(1, 2))]
+    prog += [["label", r(), 4 * rng.randrange(16) + rng.randrange(2)] for _ in range(rng.randint(1, 3))]
+    prog.append([rng.choice(("commit", "flush", "commit")), 0, 0])
+    for _ in range(rng.randint(1, 3)):
+        prog.append([rng.choice(("mk", "node_parent", "node_parent", "follow", "set")), rng.choice((4, 5, r())), odd3()])
+    prog.append(["label", r(), 4 * rng.randrange(16) + 3])
+    prog += [[rng.choice(pool), r(), r()] for _ in range(rng.randint(0, 6))]
+    prog.append(["flush", 0, 0])
+    return prog
+
+
 _orm.define(globals(), "C31", ("C31",), "ordering",
             "deterministic simulation: seeded ORM session histories (only valid final states are generated: rules R1-R4) flushed against real "
             "SQLite with immediate FOREIGN KEY and NOT NULL enforcement; an IntegrityError from any flush statement is the violation, "
@@ -10,4 +28,5 @@ _orm.define(globals(), "C31", ("C31",), "ordering",
             "SQLite enforces constraints per statement, which is the 'checks constraints immediately' backend of the property; post_update "
             "cycles are not part of the universe (no mutually dependent rows are generated)",
             weights={"mk_child": 6, "h_doc": 4, "q_ops": 4, "delete": 5, "set_parent": 4, "node_parent": 4, "bs_remove": 3, "bs_replace": 2,
-                     "k_rename": 2, "follow": 3, "tag_add": 3, "flush": 5, "commit": 2, "requery": 0, "get": 0, "lazy": 1})
+                     "k_rename": 2, "follow": 3, "tag_add": 3, "flush": 5, "commit": 2, "requery": 0, "get": 0, "lazy": 1, "label": 6, "mk": 5,
+                     "set_k": 2}, shape=_shape)
